@@ -37,6 +37,12 @@ GStep0(st, e) ==
   IF st.bad # "" THEN st
   ELSE IF Dup(e.live) THEN [st EXCEPT !.bad = "C20.two-live-gateways-share-an-id"]
   ELSE IF ~e.agree THEN [st EXCEPT !.bad = "C20.lookup-by-id-index-membership-disagree-with-iteration"]
+  ELSE IF e.ev = "ret" /\ e.op = "allocate" THEN      \* allocate_id() on its own: the id it reserves is as unique as any other automatic id
+     IF e.res = "ok" /\ e.id \in st.autos THEN [st EXCEPT !.bad = "C20.automatic-id-allocated-twice"]
+     ELSE IF e.res = "ok" THEN [st EXCEPT !.autos = @ \cup {e.id}]
+     ELSE IF e.res = "ValueError" /\ st.explicits # {} THEN st
+     ELSE [st EXCEPT !.bad = "C20.allocate-id-raised-" \o e.res]
+  ELSE IF e.ev = "ret" /\ e.op = "terminate" /\ e.res # "ok" THEN [st EXCEPT !.bad = "C05.terminate-raised-" \o e.res]
   ELSE IF e.ev = "ret" /\ e.op = "exit" /\ e.res # "ok" THEN [st EXCEPT !.bad = "C20.exit-of-a-gateway-raised-" \o e.res]
   ELSE IF e.ev = "call" /\ e.op = "makegateway" THEN [st EXCEPT !.explicits = IF e.flag THEN @ ELSE @ \cup {e.id}]
   ELSE IF e.ev = "ret" /\ e.op = "makegateway" THEN
